@@ -297,6 +297,16 @@ def rule_layouts(run, fx, rule, groups, floors=True):
             continue
         n += 1
         _, arms_, _other = ra
+        # format numbers name distinct encodings: two of them on one arm read one format as the other (cmap 13 has the byte layout of
+        # 12 and another meaning; a layout comparison alone cannot object)
+        by_target = {}
+        for fmt, tgt in arms_.items():
+            by_target.setdefault(tgt, []).append(fmt)
+        for tgt, fmts in sorted(by_target.items()):
+            if len(fmts) > 1 and not layout.error_exit(b, tgt):
+                run.fail(rule, "layout:%s:shared-arm:%s" % (what, "+".join(str(f) for f in sorted(fmts))),
+                         "%s reads the formats %s with one arm: the specification defines them as different encodings (%s)"
+                         % (path, " and ".join(str(f) for f in sorted(fmts)), what), "%s:%s" % (b.file, b.line))
         for fmt, spec in sorted(table.items()):
             if fmt not in arms_:
                 run.fail(rule, "layout:%s:format%d" % (what, fmt), "%s has no arm for format %d" % (path, fmt), "%s:%s" % (b.file, b.line))
